@@ -1,22 +1,45 @@
 #!/bin/bash
 # usage: tools_cross_check.sh [seeded-id ...]   (maintainer tool, not a registered check)
-# For every seeded change: apply it to /repo, run ALL property checks, undo it; print which properties raise a VIOLATION.
-# Expected: the property the change breaks (meta.json breaks_property) raises; a property that still holds stays quiet.
+# For every seeded change: apply it to /repo, run the checks of every property whose units read a source file the change
+# touches (a check whose units read none of them sees the unchanged text), undo it; print which properties raise a
+# VIOLATION. Expected: the property the change breaks (meta.json breaks_property) raises; a property that still holds
+# stays quiet.
 cd /verif
-ALL="C01 C02 C03 C04 C05 C06 C08 C09 C10 C13 C14 C15 C16 C17 C18 C19"
 if [ $# -gt 0 ]; then IDS="$*"; else IDS=$(ls seeded | grep -v harmless); fi
 T=$(mktemp -d); cp -r evidence $T/evidence_keep
 for id in $IDS; do
   [ -f seeded/$id/patch.diff ] || continue
+  PROPS=$(python3 - "$id" <<'PY'
+import sys,re,glob,os,tomllib
+sid=sys.argv[1]
+touched=set(os.path.basename(m) for m in re.findall(r'^\+\+\+ b/(\S+)', open('/verif/seeded/%s/patch.diff'%sid).read(), re.M))
+def files_of(unit, seen):
+    if unit in seen: return set()
+    seen.add(unit); out=set()
+    for l in open('/verif/units/%s.vt'%unit):
+        m=re.match(r'//@(fn|struct|enum|const)\s+(\S+)', l)
+        if m: out.add(os.path.basename(m.group(2)))
+        m=re.match(r'//@include\s+(\S+)', l)
+        if m: out|=files_of(m.group(1), seen)
+    return out
+res=[]
+for p in sorted(glob.glob('/verif/props/C*.toml')):
+    d=tomllib.load(open(p,'rb'))
+    fs=set()
+    for u in d['units']: fs|=files_of(u,set())
+    if fs & touched: res.append(d['id'])
+print(' '.join(res))
+PY
+)
   git -C /repo apply /verif/seeded/$id/patch.diff || { echo "$id: patch does not apply"; continue; }
   want=$(python3 -c "import json;print(json.load(open('seeded/$id/meta.json'))['breaks_property'])")
-  echo $ALL | tr ' ' '\n' | xargs -P 5 -I{} sh -c "./check {} > $T/{}.txt 2>&1"
+  echo $PROPS | tr ' ' '\n' | xargs -P 4 -I{} sh -c "./check {} > $T/{}.txt 2>&1"
   out=""
-  for p in $ALL; do
+  for p in $PROPS; do
     if grep -q "^VIOLATION" $T/$p.txt; then out="$out $p"; fi
     if grep -q "^UNDECIDED\|^BROKEN-CHECK" $T/$p.txt; then out="$out $p(undecided)"; fi
   done
   git -C /repo checkout -- .
-  echo "$id: breaks=$want alarms=[$out ]"
+  echo "$id: breaks=$want ran=[$PROPS] alarms=[$out ]"
 done
 cp $T/evidence_keep/*.json evidence/; rm -rf $T
